@@ -160,6 +160,51 @@ def sc_mstep(B, C, D, t, update_sigma, zero_comp=None):
     return o
 
 
+def sc_em_observable(B, update_sigma, seed, bag):
+    """real code only: the marginal likelihood of the training statistics (w integrated out) after
+    k and k+1 iterations of the real fit from the same start"""
+    import numpy as np
+
+    gmm = B.mod("gmm")
+    iv = B.mod("ivector")
+    rs = np.random.RandomState(seed)
+    C, D, t, J = 3, 2, 2, 12
+    ubm = gmm.GMMMachine(C)
+    ubm.means = rs.normal(size=(C, D))
+    ubm.variances = rs.uniform(0.5, 1.5, (C, D))
+    ubm.weights = np.full(C, 1.0 / C)
+    data = []
+    for j in range(J):
+        Xj = ubm.means[rs.randint(0, C, 25)] + rs.normal(scale=1.0, size=(25, D)) + rs.normal(scale=0.8, size=(1, D))
+        data.append(ubm.acc_stats(Xj))
+
+    def ll(m):
+        tot = 0.0
+        for s in data:
+            Fn = s.sum_px - s.n[:, None] * ubm.means
+            Sn = s.sum_pxx - 2 * s.sum_px * ubm.means + s.n[:, None] * ubm.means**2
+            P = np.eye(t) + sum(s.n[c] * m.T[c].T @ (m.T[c] / m.sigma[c][:, None]) for c in range(C))
+            b = sum(m.T[c].T @ (Fn[c] / m.sigma[c]) for c in range(C))
+            tot += -0.5 * np.sum(s.n[:, None] * np.log(m.sigma) + Sn / m.sigma) - 0.5 * np.linalg.slogdet(P)[1] + 0.5 * b @ np.linalg.solve(P, b)
+        return float(tot)
+
+    lls = []
+    for k in range(1, 6):
+        m = iv.IVectorMachine(ubm=ubm, dim_t=t, max_iterations=k, update_sigma=update_sigma, variance_floor=1e-6)
+        np.random.seed(seed)
+        m.fit(list(data) if not bag else B.bag([data[:5], data[5:6], data[6:]]))
+        lls.append(ll(m))
+    o = Outcome()
+    o.info["marginal_log_likelihoods"] = lls
+    for k in range(4):
+        o.claim("marginal-likelihood-not-decreasing-%d" % k, lls[k + 1] >= lls[k] - 1e-8 * abs(lls[k]))
+    return o
+
+
+def job_observable(P):
+    P.probe_real("em-observable", sc_em_observable, [dict(update_sigma=us, seed=sd, bag=bg) for us in (True, False) for sd in (1, 2) for bg in (False, True)], tries=1)
+
+
 def _la(t):
     return "closed" if t <= 1 else "uf"
 
@@ -178,7 +223,7 @@ def job_mstep(P, C, D, t, update_sigma, zero_comp):
 
 
 def jobs(tier):
-    out = []
+    out = [("observable", "job_observable", {})]
     for (C, D, t) in SIZES[tier]:
         out.append(("project@C%dD%dt%d" % (C, D, t), "job_project", dict(C=C, D=D, t=t)))
         for us in (True, False):
